@@ -767,3 +767,241 @@ Section Write.
     now destruct (aget N.eqb k blocks).
   Qed.
 End Write.
+
+(* ---------- split-supervoxel ---------- *)
+Lemma count_masked_le arr : forall mask sv, count_masked arr mask sv <= occ arr sv.
+Proof.
+  induction arr as [|l r IH]; intros mask sv; cbn [count_masked]; [rewrite occ_nil; lia|].
+  rewrite occ_cons. specialize (IH (match mask with _ :: t => t | [] => [] end) sv).
+  destruct (l =? sv); cbn [andb]; [destruct (match mask with b :: _ => b | [] => false end)|]; lia.
+Qed.
+
+Lemma occ_relabel_sv arr : forall mask sv split remain s,
+  split <> sv -> remain <> sv -> split <> remain ->
+  occ (relabel_sv arr mask sv split remain) s =
+  if s =? sv then 0
+  else if s =? split then occ arr split + count_masked arr mask sv
+  else if s =? remain then occ arr remain + (occ arr sv - count_masked arr mask sv)
+  else occ arr s.
+Proof.
+  induction arr as [|l r IH]; intros mask sv split remain s H1 H2 H3.
+  - cbn [relabel_sv count_masked]. rewrite !occ_nil. now destruct (s =? sv), (s =? split), (s =? remain).
+  - cbn [relabel_sv count_masked]. rewrite !occ_cons.
+    rewrite (IH (match mask with _ :: t => t | [] => [] end) sv split remain s H1 H2 H3).
+    pose proof (count_masked_le r (match mask with _ :: t => t | [] => [] end) sv) as Le.
+    set (m := match mask with b :: _ => b | [] => false end).
+    set (cm := count_masked r (match mask with _ :: t => t | [] => [] end) sv) in *.
+    clearbody cm m. clear IH.
+    destruct (l =? sv) eqn:Els.
+    + apply N.eqb_eq in Els; subst l. cbn [andb].
+      rewrite (N_eqb_neq sv split) by congruence. rewrite (N_eqb_neq sv remain) by congruence.
+      destruct m.
+      * destruct (s =? sv) eqn:E1; [apply N.eqb_eq in E1; subst; now rewrite (N_eqb_neq split sv H1)|].
+        destruct (split =? s) eqn:E2.
+        -- apply N.eqb_eq in E2; subst s. rewrite N.eqb_refl. lia.
+        -- rewrite (N.eqb_sym s split), E2, ?(N.eqb_sym sv s), ?E1. destruct (s =? remain); lia.
+      * destruct (s =? sv) eqn:E1; [apply N.eqb_eq in E1; subst; now rewrite (N_eqb_neq remain sv H2)|].
+        destruct (remain =? s) eqn:E2.
+        -- apply N.eqb_eq in E2; subst s. rewrite N.eqb_refl. rewrite (N_eqb_neq remain split) by congruence. lia.
+        -- rewrite (N.eqb_sym s remain), E2, ?(N.eqb_sym sv s), ?E1. destruct (s =? split); lia.
+    + cbn [andb]. destruct (s =? sv) eqn:E1.
+      * apply N.eqb_eq in E1; subst s. now rewrite Els.
+      * destruct (l =? s) eqn:E4; destruct (s =? split) eqn:E2; destruct (s =? remain) eqn:E3; bprop; subst;
+          rewrite ?N.eqb_refl; rewrite ?(N_eqb_neq _ _ H3); try lia;
+          repeat match goal with |- context[if ?c then _ else _] => destruct c eqn:? end; bprop; subst; try congruence; lia.
+Qed.
+
+Definition mask_of (masks : list (N * list bool)) (b : N) : list bool :=
+  match aget N.eqb b masks with Some m => m | None => [] end.
+
+Lemma split_sv_blocks_spec sv split remain masks idx' : forall blks vx vx',
+  NoDup blks ->
+  split_sv_blocks vx blks sv split remain masks idx' = Some vx' ->
+  (forall b, aget N.eqb b vx' =
+             if memN b blks
+             then match aget N.eqb b vx with
+                  | Some arr => Some (relabel_sv arr (mask_of masks b) sv split remain)
+                  | None => None
+                  end
+             else aget N.eqb b vx) /\
+  (forall b arr, In b blks -> aget N.eqb b vx = Some arr ->
+     occ arr sv - count_masked arr (mask_of masks b) sv = cnt idx' b remain /\
+     count_masked arr (mask_of masks b) sv = cnt idx' b split).
+Proof.
+  induction blks as [|b0 r IH]; intros vx vx' ND H; cbn [split_sv_blocks] in H.
+  - inversion H; subst. split; [reflexivity | intros b arr []].
+  - inversion ND as [|? ? Hn ND']; subst. fold (mask_of masks b0) in H.
+    destruct (aget N.eqb b0 vx) as [arr0|] eqn:A0.
+    + change (countN arr0 sv) with (occ arr0 sv) in H.
+      destruct ((occ arr0 sv - count_masked arr0 (mask_of masks b0) sv =? cnt idx' b0 remain) &&
+                (count_masked arr0 (mask_of masks b0) sv =? cnt idx' b0 split)) eqn:Chk; [|discriminate].
+      apply andb_true_iff in Chk as [Ck1 Ck2]. apply N.eqb_eq in Ck1, Ck2.
+      destruct (IH _ vx' ND' H) as [G1 G2]. split.
+      * intro b. rewrite G1. cbn [memN existsb]. fold (memN b r). rewrite aget_aset_N.
+        destruct (b =? b0) eqn:E.
+        -- apply N.eqb_eq in E; subst b. rewrite A0.
+           destruct (memN b0 r) eqn:M; [apply memN_In in M; contradiction | reflexivity].
+        -- cbn [orb]. reflexivity.
+      * intros b arr [<-|Hin] Ha.
+        -- rewrite A0 in Ha. inversion Ha; subst. auto.
+        -- apply (G2 b arr Hin). rewrite aget_aset_N.
+           destruct (b =? b0) eqn:E; [apply N.eqb_eq in E; subst; contradiction | exact Ha].
+    + destruct (IH _ vx' ND' H) as [G1 G2]. split.
+      * intro b. rewrite G1. cbn [memN existsb]. fold (memN b r).
+        destruct (b =? b0) eqn:E; [|reflexivity]. apply N.eqb_eq in E; subst b. rewrite A0.
+        cbn [orb]. now destruct (memN b0 r).
+      * intros b arr [<-|Hin] Ha; [congruence | now apply (G2 b arr Hin)].
+Qed.
+
+Lemma sv_blocks_spec idx sv : Wf idx ->
+  NoDup (sv_blocks idx sv) /\ forall b, In b (sv_blocks idx sv) <-> 0 < cnt idx b sv.
+Proof.
+  intros [ND P]. rewrite Forall_forall in P. split.
+  - unfold sv_blocks. clear P. unfold keys_of in ND. induction idx as [|[[b s] c] r IH]; simpl; [constructor|].
+    inversion ND as [|? ? Hn ND']; subst. unfold ksv at 1; simpl. destruct (s =? sv) eqn:E; [|auto].
+    apply N.eqb_eq in E; subst s. simpl. constructor; [|auto].
+    intro Hin. apply in_map_iff in Hin as [[[b' s'] c'] [Hb Hin]]. unfold kblock in Hb; simpl in Hb; subst b'.
+    apply filter_In in Hin as [Hin Hs]. unfold ksv in Hs; simpl in Hs. apply N.eqb_eq in Hs; subst s'.
+    apply Hn. apply in_map_iff. now exists ((b, sv), c').
+  - intro b. unfold sv_blocks. rewrite in_map_iff. split.
+    + intros [[[b' s'] c] [Hb Hin]]. unfold kblock in Hb; simpl in Hb; subst b'.
+      apply filter_In in Hin as [Hin Hs]. unfold ksv in Hs; simpl in Hs. apply N.eqb_eq in Hs; subst s'.
+      unfold cnt. rewrite (in_aget_nodup key_eqb key_eqb_eq (b, sv) c idx ND Hin). apply (P _ Hin).
+    + intro Hp. unfold cnt in Hp. destruct (aget key_eqb (b, sv) idx) as [c|] eqn:A; [|lia].
+      apply (aget_Some_in key_eqb key_eqb_eq) in A. exists ((b, sv), c). split; [reflexivity|].
+      apply filter_In. split; [exact A | apply N.eqb_refl].
+Qed.
+
+Lemma cnt_head (e : key * N) (r : index) : cnt (e :: r) (kblock e) (ksv e) = snd e.
+Proof.
+  destruct e as [[b s] c]. unfold cnt, kblock, ksv; simpl. unfold key_eqb at 1; simpl. now rewrite !N.eqb_refl.
+Qed.
+
+Lemma sv_in_head (e : key * N) (r : index) : sv_in (e :: r) (ksv e) = true.
+Proof. unfold sv_in; simpl. now rewrite N.eqb_refl. Qed.
+
+Theorem consistent_splitsv st sv split remain masks rl st' :
+  Consistent st ->
+  sv <> 0 -> split <> 0 -> remain <> 0 -> split <> remain -> split <> sv -> remain <> sv ->
+  (forall b, vcount st b split = 0) -> (forall b, vcount st b remain = 0) ->
+  (forall b n, aget N.eqb b rl = Some n -> 0 < n < 2 ^ 32) ->
+  (forall b a, aget N.eqb b (f_vox st) = Some a -> N.of_nat (length a) < 2 ^ 32) ->
+  f_splitsv st sv split remain masks rl = Ok st' -> Consistent st'.
+Proof.
+  intros C Hsv0 Hsp0 Hre0 Hsr Hss Hrs Vs Vr Hrl Hlen. unfold f_splitsv.
+  set (label := mapped (f_map st) sv).
+  destruct (get_idx st label) as [idx|] eqn:Hi; [|discriminate].
+  destruct (sv_count idx sv <? sumN (map snd rl)); [discriminate|].
+  destruct (split_sv_index idx sv split remain rl) as [idx'| |] eqn:Es; try discriminate.
+  destruct (split_sv_blocks (f_vox st) (sv_blocks idx sv) sv split remain masks idx') as [vx'|] eqn:Eb; [|discriminate].
+  intro E. apply Ok_inj in E. subst st'.
+  assert (label <> 0) as Hl0 by (intro X; rewrite X, (c_zero st C) in Hi; discriminate).
+  destruct (c_wf st C label idx Hi) as [W Hne].
+  assert (forall b s, cnt idx b s = if negb (s =? 0) && (mapped (f_map st) s =? label) then vcount st b s else 0) as Ci
+      by (intros; now apply consistent_cnt).
+  assert (forall b s, vcount st b s < 2 ^ 32) as Vb.
+  { intros b s. unfold vcount. destruct (aget N.eqb b (f_vox st)) as [a|] eqn:A; [|reflexivity].
+    pose proof (Hlen b a A). pose proof (occ_le_length a s). change (countN a s) with (occ a s). lia. }
+  assert (forall x, (forall b, vcount st b x = 0) -> sv_in idx x = false) as Fresh.
+  { intros x Hx. destruct (sv_in idx x) eqn:S; [|reflexivity].
+    destruct (sv_in_pos idx x W S) as [b Hb]. rewrite Ci in Hb. rewrite (Hx b) in Hb.
+    destruct (negb (x =? 0) && (mapped (f_map st) x =? label)); lia. }
+  destruct (split_sv_index_spec idx sv split remain rl idx' W Hsr Hss Hrs (Fresh split Vs) (Fresh remain Vr) Hrl)
+    as (W' & Hle & Hc'); [|exact Es|].
+  { intros b s. rewrite Ci. destruct (negb (s =? 0) && (mapped (f_map st) s =? label)); [apply Vb | reflexivity]. }
+  destruct (sv_blocks_spec idx sv W) as [NDk Hk].
+  destruct (split_sv_blocks_spec sv split remain masks idx' _ _ _ NDk Eb) as [Gv Gc].
+  assert (forall b, cnt idx b sv = vcount st b sv) as Csv.
+  { intro b. rewrite Ci. fold label. now rewrite N.eqb_refl, (N_eqb_neq sv 0 Hsv0). }
+  (* the new voxel counts *)
+  set (stn := {| f_vox := vx';
+                 f_map := aset N.eqb sv 0 (aset N.eqb remain label (aset N.eqb split label (f_map st)));
+                 f_idx := aset N.eqb label idx' (f_idx st) |}).
+  assert (forall b s, vcount stn b s =
+            if 0 <? cnt idx b sv
+            then (if s =? sv then 0 else if s =? split then cnt idx' b split
+                  else if s =? remain then cnt idx' b remain else vcount st b s)
+            else vcount st b s) as Vn.
+  { intros b s. unfold vcount at 1, stn; simpl. rewrite Gv.
+    destruct (0 <? cnt idx b sv) eqn:Pz.
+    - apply N.ltb_lt in Pz. assert (memN b (sv_blocks idx sv) = true) as M by (apply memN_In; now apply Hk).
+      rewrite M. rewrite Csv in Pz. unfold vcount in Pz.
+      destruct (aget N.eqb b (f_vox st)) as [arr|] eqn:A; [|lia].
+      destruct (Gc b arr (proj2 (Hk b) ltac:(rewrite Csv; unfold vcount; rewrite A; exact Pz)) A) as [G1 G2].
+      change (countN (relabel_sv arr (mask_of masks b) sv split remain) s)
+        with (occ (relabel_sv arr (mask_of masks b) sv split remain) s).
+      rewrite (occ_relabel_sv arr (mask_of masks b) sv split remain s Hss Hrs Hsr).
+      pose proof (Vs b) as Z1. pose proof (Vr b) as Z2. unfold vcount in Z1, Z2. rewrite A in Z1, Z2.
+      change (countN arr split) with (occ arr split) in Z1. change (countN arr remain) with (occ arr remain) in Z2.
+      unfold vcount. rewrite A. change (countN arr s) with (occ arr s).
+      destruct (s =? sv); [reflexivity|]. destruct (s =? split); [lia|]. destruct (s =? remain); [lia | reflexivity].
+    - apply N.ltb_ge in Pz. assert (memN b (sv_blocks idx sv) = false) as M.
+      { destruct (memN b (sv_blocks idx sv)) eqn:M; [|reflexivity]. apply memN_In in M. apply Hk in M. lia. }
+      rewrite M. reflexivity. }
+  assert (forall s, mapped (f_map stn) s =
+                    if s =? sv then 0 else if s =? remain then label else if s =? split then label
+                    else mapped (f_map st) s) as Mn.
+  { intro s. unfold stn; simpl. now rewrite !mapped_aset. }
+  split.
+  - intros l b s. unfold icnt, get_idx. fold stn. rewrite Vn, Mn.
+    change (f_idx stn) with (aset N.eqb label idx' (f_idx st)). rewrite aget_aset_N.
+    pose proof (c_cnt st C l b s) as Cl. unfold icnt, get_idx in Cl.
+    pose proof (Hc' b s) as Hs. unfold split_formula in Hs.
+    pose proof (Vs b) as Z1. pose proof (Vr b) as Z2.
+    destruct (l =? label) eqn:El.
+    + apply N.eqb_eq in El; subst l. rewrite Hs. clear Hs.
+      destruct (0 <? cnt idx b sv) eqn:Pz.
+      * destruct (s =? sv) eqn:E1.
+        { apply N.eqb_eq in E1; subst s. rewrite (N_eqb_neq 0 label) by congruence. now rewrite andb_false_r. }
+        destruct (s =? remain) eqn:E3.
+        { apply N.eqb_eq in E3; subst s. rewrite N.eqb_refl, (N_eqb_neq remain 0 Hre0).
+          rewrite (N_eqb_neq remain split) by congruence. cbn [negb andb].
+          rewrite (Hc' b remain). rewrite Pz. unfold split_formula.
+          rewrite (N_eqb_neq remain sv Hrs), (N_eqb_neq remain split) by congruence. now rewrite N.eqb_refl. }
+        destruct (s =? split) eqn:E2.
+        { apply N.eqb_eq in E2; subst s. rewrite N.eqb_refl, (N_eqb_neq split 0 Hsp0). cbn [negb andb].
+          rewrite (Hc' b split). rewrite Pz. unfold split_formula.
+          now rewrite (N_eqb_neq split sv Hss), N.eqb_refl. }
+        apply Ci.
+      * rewrite Ci. apply N.ltb_ge in Pz. rewrite Csv in Pz.
+        destruct (s =? sv) eqn:E1.
+        { apply N.eqb_eq in E1; subst s. rewrite (N_eqb_neq 0 label) by congruence.
+          rewrite andb_false_r. fold label. rewrite N.eqb_refl, (N_eqb_neq sv 0 Hsv0). cbn [negb andb]. lia. }
+        destruct (s =? remain) eqn:E3.
+        { apply N.eqb_eq in E3; subst s. rewrite Z2. now ifs. }
+        destruct (s =? split) eqn:E2.
+        { apply N.eqb_eq in E2; subst s. rewrite Z1. now ifs. }
+        reflexivity.
+    + rewrite Cl. clear Hs.
+      assert (forall x, vcount st b x = 0 ->
+                (if negb (x =? 0) && (mapped (f_map st) x =? l) then vcount st b x else 0) = 0) as Zero
+          by (intros x Hx; rewrite Hx; now ifs).
+      destruct (s =? sv) eqn:E1.
+      * apply N.eqb_eq in E1; subst s. fold label. rewrite (N.eqb_sym label l), El, andb_false_r.
+        rewrite <- Csv. destruct (0 <? cnt idx b sv) eqn:Pz; [now ifs|]. apply N.ltb_ge in Pz. ifs; lia.
+      * destruct (s =? remain) eqn:E3.
+        { apply N.eqb_eq in E3; subst s. rewrite (Zero remain Z2). rewrite (N.eqb_sym label l), El, andb_false_r. now ifs. }
+        destruct (s =? split) eqn:E2.
+        { apply N.eqb_eq in E2; subst s. rewrite (Zero split Z1). rewrite (N.eqb_sym label l), El, andb_false_r. now ifs. }
+        now ifs.
+  - unfold get_idx; simpl. rewrite aget_aset_N, (N_eqb_neq 0 label) by congruence. apply (c_zero st C).
+  - intros l i. unfold get_idx; simpl. rewrite aget_aset_N. destruct (l =? label); [|apply (c_wf st C)].
+    intro H; inversion H; subst i. split; [exact W'|]. intro Hnil.
+    destruct idx as [|e r]; [congruence|].
+    destruct W as [NDi Pi]. inversion Pi as [|? ? Hc0 _]; subst.
+    set (b := kblock e) in *. set (s := ksv e) in *. set (c := snd e) in *.
+    pose proof (cnt_head e r) as Hcs. fold b s c in Hcs.
+    pose proof (Hc' b s) as X. pose proof (Hc' b split) as Xs. pose proof (Hc' b remain) as Xr.
+    unfold cnt at 1 in X. unfold cnt at 1 in Xs. unfold cnt at 1 in Xr. simpl aget in X, Xs, Xr. unfold split_formula in *.
+    pose proof (Hle b) as Hleb.
+    destruct (s =? sv) eqn:E1.
+    + apply N.eqb_eq in E1. rewrite E1 in Hcs. rewrite Hcs in X, Xs, Xr, Hleb.
+      assert ((0 <? c) = true) as Pz by (apply N.ltb_lt; lia). rewrite Pz in Xs, Xr.
+      rewrite (N_eqb_neq split sv Hss), N.eqb_refl in Xs.
+      rewrite (N_eqb_neq remain sv Hrs), (N_eqb_neq remain split), N.eqb_refl in Xr by congruence.
+      specialize (Hleb ltac:(lia)). lia.
+    + pose proof (sv_in_head e r) as Sin. fold s in Sin.
+      assert (s <> split) as N1 by (intro Q; rewrite Q, (Fresh split Vs) in Sin; discriminate).
+      assert (s <> remain) as N2 by (intro Q; rewrite Q, (Fresh remain Vr) in Sin; discriminate).
+      rewrite Hcs, (N_eqb_neq s split N1), (N_eqb_neq s remain N2) in X. destruct (0 <? cnt _ b sv); lia.
+Qed.
